@@ -105,6 +105,9 @@ struct Runner<'a, 'b> {
     hold: bool,
     /// per call that noticed time-outs while in back-pressure mode: the holders that must be reported
     owed: Vec<BTreeSet<PeerId>>,
+    /// a second fetcher of ANOTHER node living in the same process (several nodes of one process, or a node re-created
+    /// under a new identity): it hears every advertisement first and schedules first; nothing it does may show in `f`
+    neigh: Option<(VerifFetcher, tokio::sync::mpsc::Receiver<NetworkEvent>)>,
 }
 
 impl Runner<'_, '_> {
@@ -160,6 +163,9 @@ impl Runner<'_, '_> {
             Call::Ad { holder, keys } => {
                 let incoming: Vec<(NetworkAddress, RecordType)> =
                     keys.iter().map(|(k, t)| (NetworkAddress::from_record_key(&self.w.keys[*k]), t.clone())).collect();
+                if let Some((n, _)) = self.neigh.as_mut() {
+                    let _ = n.add_keys(self.w.holders[*holder], incoming.clone(), &HashMap::new());
+                }
                 self.f.add_keys(self.w.holders[*holder], incoming, &self.w.store)
             }
             Call::Put { key, ty, .. } => {
@@ -168,7 +174,12 @@ impl Runner<'_, '_> {
                 self.f.notify_about_new_put(k, ty.clone())
             }
             Call::Early { key, ty } => self.f.notify_fetch_early_completed(self.w.keys[*key].clone(), ty.clone()),
-            Call::Next => self.f.next_keys_to_fetch(),
+            Call::Next => {
+                if let Some((n, _)) = self.neigh.as_mut() {
+                    let _ = n.next_keys_to_fetch();
+                }
+                self.f.next_keys_to_fetch()
+            }
             Call::SetRange(r) => {
                 self.f.set_replication_distance_range(to_u256(r));
                 self.w.range = Some(*r);
@@ -431,7 +442,13 @@ impl Check for C08 {
         }
         let w = World { me, holders, keys, dist, versions, store: HashMap::new(), range: None, farthest_latest: None, farthest_min: None, now_s: 0, inflight: HashMap::new() };
         let _ = w.me;
-        let mut r = Runner { cx, rt, f, rx, w, trace: vec![], batch_calls: 0, hold, owed: vec![] };
+        let neigh = if cx.rng.gen_bool(0.3) {
+            cx.count("traces-with-a-second-fetcher-in-the-process");
+            Some(VerifFetcher::new(PeerId::random()))
+        } else {
+            None
+        };
+        let mut r = Runner { cx, rt, f, rx, w, trace: vec![], batch_calls: 0, hold, owed: vec![], neigh };
 
         // pre-populate the store with some keys
         for k in 0..nk {
